@@ -51,6 +51,7 @@ func c10Decls() []c10Decl {
 			return originDecl("monetary", "mw", "overdraft", gen.Acct("world"), gen.Asset("USD"))
 		}},
 		{"bw", func() *gen.VarDecl { return originDecl("monetary", "bw", "overdraft", gen.V("w"), gen.Asset("USD")) }},
+		{"wb", func() *gen.VarDecl { return originDecl("monetary", "wb", "balance", gen.Acct("world"), gen.Asset("USD")) }},
 	}
 }
 
@@ -103,6 +104,11 @@ func c10Ops() []c10Op {
 		c10Op{op{"send3 {q p b}->x", 0, func() gen.Stmt {
 			return sv(&gen.SentLit{E: gen.Mon(U, "3")}, lst(sa("q"), sa("p"), sa("b")), da("x"))
 		}}, ""},
+		c10Op{op{"sendEUR2 a->x", 0, func() gen.Stmt { return sv(&gen.SentLit{E: gen.Mon("EUR", "2")}, sa("a"), da("x")) }}, ""},
+		c10Op{op{"saveEUR1 a", 0, func() gen.Stmt { return &gen.Save{Sent: &gen.SentLit{E: gen.Mon("EUR", "1")}, Acct: gen.Acct("a")} }}, ""},
+		c10Op{op{"send5 world->{max $wb x, y}", 0, func() gen.Stmt {
+			return sv(&gen.SentLit{E: gen.Mon(U, "5")}, sa("world"), &gen.DstInorder{Clauses: []*gen.DstClause{{Cap: v("wb"), To: &gen.To{D: da("x")}}}, Remaining: &gen.To{D: da("y")}})
+		}}, "wb"},
 		c10Op{op{"send3 a unbounded->x", 0, func() gen.Stmt {
 			return sv(&gen.SentLit{E: gen.Mon(U, "3")}, &gen.SrcOverdraft{Addr: gen.Acct("a")}, da("x"))
 		}}, ""},
@@ -132,7 +138,7 @@ func runC10(w *mc.Worker) {
 	b := bigs(0, 2, 5)
 	aeur := bigs(0, 3)
 	name := "d2-L1"
-	bounds := "<= 2 declarations, 1 statement out of 37; sheets a in {0,1,3,6,-2}, b in {0,2,5}, x=0, a/EUR in {0,3}; meta acc in {a,x}; $w in {a,b,world,world:fees}; 4 store behaviours"
+	bounds := "<= 2 declarations, 1 statement out of 40; sheets a in {0,1,3,6,-2}, b in {0,2,5}, x=0, a/EUR in {0,3}; meta acc in {a,x}; $w in {a,b,world,world:fees}; 4 store behaviours"
 	type stage struct {
 		name, bounds    string
 		maxDecl, maxLen int
@@ -140,13 +146,13 @@ func runC10(w *mc.Worker) {
 	}
 	stages := []stage{{name, bounds, maxDecl, maxLen, 1}}
 	if w.Tier == "quick" {
-		stages = append(stages, stage{"d1-L2", "<= 1 declaration, 2 statements out of 37; same inputs", 1, 2, 2},
-			stage{"d2-L2", "2 declarations, 2 statements out of 37; same inputs", 2, 2, 2})
+		stages = append(stages, stage{"d1-L2", "<= 1 declaration, 2 statements out of 40; same inputs", 1, 2, 2},
+			stage{"d2-L2", "2 declarations, 2 statements out of 40; same inputs", 2, 2, 2})
 	} else {
 		a = append(a, H)
 		stages = []stage{
-			{"d2-L2", "<= 2 declarations, 1..2 statements out of 37; sheets a in {0,1,3,6,-2,H}, b in {0,2,5}, a/EUR in {0,3}; meta acc in {a,x}; $w in {a,b,world,world:fees}; 4 store behaviours", 2, 2, 1},
-			{"d1-L3", "<= 1 declaration, 3 statements out of 37; same inputs", 1, 3, 3},
+			{"d2-L2", "<= 2 declarations, 1..2 statements out of 40; sheets a in {0,1,3,6,-2,H}, b in {0,2,5}, a/EUR in {0,3}; meta acc in {a,x}; $w in {a,b,world,world:fees}; 4 store behaviours", 2, 2, 1},
+			{"d1-L3", "<= 1 declaration, 3 statements out of 40; same inputs", 1, 3, 3},
 		}
 	}
 	flags := map[string]struct{}{interpreter.ExperimentalOverdraftFunctionFeatureFlag: {}}
